@@ -707,6 +707,16 @@ func HeaderV(pkg string, v Variant) string {
 	}
 }
 
+// FormattedHeaderV is what the formatter makes of HeaderV(pkg, v): css templates are laid out anew, the body of a
+// script template is kept byte for byte (the tab in front of its closing brace belongs to the body).
+func FormattedHeaderV(pkg string, v Variant) string {
+	h := HeaderV(pkg, 0)
+	if v != 0 {
+		h = strings.Replace(h, "\talert(a);\n}", "\talert(a);\n\t}", 1)
+	}
+	return h
+}
+
 // Header of every generated .templ file: the fixed helper components of the spec.
 func Header(pkg string) string {
 	return "package " + pkg + "\n\n" +
